@@ -1,1 +1,18 @@
-//! Hooks for property C13 (empty unless needed).
+//! Hooks for property C13 (captive-portal challenge echo): public wrappers around the private
+//! `serve_no_content_handler` and `CaptivePortalService` of `crate::server`.
+
+use http::{Request, response::Parts};
+
+use crate::server::verif_captive_portal as inner;
+
+/// Runs the real handler on `r` and returns the head of its response.
+pub fn serve_no_content<B: hyper::body::Body>(r: Request<B>) -> Result<Parts, String> {
+    inner::serve_no_content(r)
+        .map(|resp| resp.into_parts().0)
+        .map_err(|e| e.to_string())
+}
+
+/// Serves the real captive-portal HTTP/1 service on one in-memory connection until it closes.
+pub async fn serve_conn(io: tokio::io::DuplexStream) -> Result<(), String> {
+    inner::serve_conn(io).await.map_err(|e| format!("{e:?}"))
+}
